@@ -184,7 +184,7 @@ func c01Observe(vm *ds.Context, src string, o *c01Obs) {
 	step("MatchedRest", func() error { _ = vm.Matched + vm.RestInput; return nil })
 	step("RunExpr", func() error { _, err := vm.RunExpr(src, true); return err })
 	c1, c2 := canonDetail(d1), canonDetail(d2) // (a text that renders a dict is in map order, and so is whether it is elided)
-	o.DetailStable = c1 == c2 || c1 == "UNORDERED" || c2 == "UNORDERED"
+	o.DetailStable = c1 == c2
 }
 
 func (o *c01Obs) sig() string {
